@@ -1222,6 +1222,23 @@ def c17_programs(tier, sd):
                ["randomize", ["top"]], ["vsc_randomize_with", [["top", "s1"]], [E([">", F("top", "s1", "x"), lit(255)])]], ["randomize", ["top"]]]
         out.append({"tag": "hooks", "desc": "tree s1 rand=%s s2 rand=%s list rand=%s" % (r1, r2, rl), "prog": pr,
                     "world": [["top", "obj", "Top"], ["other", "obj", "Top"]], "ops": ops})
+    # random-size lists: of objects with hooks (solved to fewer elements than were appended), and a scalar one whose size depends on
+    # a non-random field that pre_randomize assigns
+    for nobj, bound in ((4, 3), (3, 1), (2, 2)):
+        TopL = {"name": "TopL", "fields": [["items", "list", ["obj", "Leaf"], nobj, True, True], fld("a", ("u", 8))],
+                "blocks": [["tb", "c", [E(["<", ["size", ["items"]], lit(bound)]), ["foreach", ["items"], "i", [E(["!=", ["it", "i", "p"], F("a")])]]]]],
+                "pre_randomize": [], "post_randomize": []}
+        out.append({"tag": "hooks_randsz_obj", "desc": "random-size list of %d hooked objects, size < %d" % (nobj, bound),
+                    "prog": {"enums": {}, "classes": [Leaf, TopL]}, "world": [["top", "obj", "TopL"]],
+                    "ops": [["randomize", ["top"]], ["randomize", ["top"]], ["randomize_with", ["top"], [E(["<", F("a"), lit(100)])]], ["vsc_randomize", [["top"]]]]})
+    for expr in (["+", F("n"), lit(1)], F("n"), ["-", F("n"), lit(1)]):
+        TopS = {"name": "TopS", "fields": [["l", "list", ["u", 8], 0, True, True], fld("n", ("u", 3), False), fld("a", ("u", 8))],
+                "blocks": [["tb", "c", [E(["==", ["size", ["l"]], expr]), ["foreach", ["l"], "i", [E(["<", ["it", "i"], lit(7)])]]]]],
+                "pre_randomize": [["set", ["n"], 3]], "post_randomize": []}
+        out.append({"tag": "hooks_randsz_size", "desc": "list size == %s with n assigned by pre_randomize" % (expr,),
+                    "prog": {"enums": {}, "classes": [TopS]}, "world": [["top", "obj", "TopS"]],
+                    "ops": [["set", ["top", "n"], 1], ["randomize", ["top"]], ["set", ["top", "n"], 0], ["randomize", ["top"]], ["set", ["top", "n"], 2],
+                            ["randomize_with", ["top"], [E(["<", F("a"), lit(9)])]]]})
     return out
 
 
